@@ -278,3 +278,73 @@ def _selftest():
 
 if __name__ == "__main__":
     print(_selftest())
+
+
+# ---------------------------------------------------------------------------------------------------
+# float64 replica of the data-dependent decisions of the closed-form 3x3 eigen-solver (classification only)
+# ---------------------------------------------------------------------------------------------------
+
+def eigen_decision_margins(A):
+    """Relative margins of the exact floating-point comparisons that TensorMath.eigen_sym33_unit takes on the
+    symmetric matrix A (replica of the arithmetic read off the source, numpy float64): which row has the largest norm
+    (column pivot), which deflated row is larger, the sign of the Wilkinson shift, and which 2x2 eigenvector formula is
+    used.  A margin of 0 is an exact tie (decided by rounding).  Used ONLY to classify batched-mode failures; never a
+    verdict.  Returns {} for a (numerically) spherical tensor."""
+    A = onp.asarray(A, dtype=float)
+    with onp.errstate(all="ignore"):
+        cmax = onp.abs(A).sum(axis=1).max()
+        if not onp.isfinite(cmax) or cmax == 0.0:
+            return {}
+        T = A / cmax
+        cxx, cyy, czz = T[0, 0], T[1, 1], T[2, 2]
+        cxy, cyz, czx = 0.5 * (T[0, 1] + T[1, 0]), 0.5 * (T[1, 2] + T[2, 1]), 0.5 * (T[2, 0] + T[0, 2])
+        c1 = (cxx + cyy + czz) / 3.0
+        cxx, cyy, czz = cxx - c1, cyy - c1, czz - c1
+        c2 = cxx * cyy + cyy * czz + czz * cxx - cxy * cxy - cyz * cyz - czx * czx
+        if not (c2 < (c1 * c1) * (-1.0e-30)):
+            return {}
+        a3 = -3.0 / c2
+        sq = onp.sqrt(a3)
+        c3 = cxx * cyz * cyz + cyy * czx * czx - 2.0 * cxy * cyz * czx + czz * (cxy * cxy - cxx * cyy)
+        rr = -0.5 * c3 * a3 * sq
+        ev2 = 2.0 * onp.cos(onp.arccos(min(abs(rr), 1.0)) / 3.0) * onp.sign(rr) / sq
+        C = onp.array([[cxx - ev2, cxy, czx], [cxy, cyy - ev2, cyz], [czx, cyz, czz - ev2]])
+        k = (C * C).sum(axis=1)
+        if k[1] <= k[0] and k[2] <= k[0]:
+            p = 0
+        elif k[2] <= k[1] and not (k[1] <= k[0]):
+            p = 1
+        else:
+            p = 2
+        others = [k[j] for j in range(3) if j != p]
+        m = {"pivot-row": float((k[p] - max(others)) / k[p]) if k[p] > 0 else 0.0,
+             "largest-root-sign": float(abs(rr))}
+        r1 = C[p]
+        r2 = C[1] if p == 0 else C[0]
+        r3 = C[1] if p == 2 else C[2]
+        r2 = r2 - (r1 @ r2) / k[p] * r1
+        r3 = r3 - (r1 @ r3) / k[p] * r1
+        a0, a1 = r2 @ r2, r3 @ r3
+        amax = max(a0, a1)
+        m["second-row"] = float(abs(a0 - a1) / amax) if amax > 0 else 0.0
+        ar = r3 if a0 <= a1 else r2
+        S = onp.array([[cxx, cxy, czx], [cxy, cyy, cyz], [czx, cyz, czz]])
+        xx = (r1 @ S @ r1) / k[p]
+        yy = (ar @ S @ ar) / amax if amax > 0 else 0.0
+        xy2 = (r1 @ S @ ar) ** 2 / (k[p] * amax) if amax > 0 else 0.0
+        b = 0.5 * (xx - yy)
+        scale = abs(xx) + abs(yy) + onp.sqrt(xy2)
+        m["wilkinson-shift-sign"] = float(abs(b) / scale) if scale > 0 else 0.0
+        ev0 = yy + b - onp.sqrt(b * b + xy2) * onp.sign(b)
+        x2, y2 = (xx - ev0) ** 2, (yy - ev0) ** 2
+        m["2x2-eigenvector-formula"] = float(abs(x2 - y2) / max(x2, y2)) if max(x2, y2) > 0 else 0.0
+    return m
+
+
+def eigen_decision_tie(A, thr=1e-6):
+    """(is_tie, name of the closest decision, its margin)."""
+    m = eigen_decision_margins(A)
+    if not m:
+        return True, "spherical", 0.0
+    name = min(m, key=lambda q: m[q])
+    return bool(m[name] <= thr), name, m[name]
